@@ -3,7 +3,7 @@ import ast
 import re
 
 from ..core import Mutant, norm
-from ..astutil import method_call, unparse, parent, in_subtree, kwarg
+from ..astutil import method_call, unparse, parent, in_subtree, kwarg, flat, ancestors
 from ..index import dotted, walk_local
 
 EXPLANATION = ("C24: every call from IoSuber / IoSetSuber to a Duror *Io* method passes sep=self.ionsep; suffix() writes a "
@@ -77,7 +77,12 @@ def check(run):
             ok = isinstance(nxt, ast.If) and isinstance(nxt.test, ast.Compare) and {dotted(nxt.test.left), dotted(nxt.test.comparators[0])} == {ck, "key"} \
                 and isinstance(nxt.test.ops[0], (ast.Eq, ast.NotEq))
             # inside a scan loop nothing may touch the entry before it is known to belong to the key
-            early = [unparse(st) for st in blk[:blk.index(u)]] if blk is not None and isinstance(p, (ast.For, ast.While)) else []
+            loop = next((a for a in ancestors(u) if isinstance(a, (ast.For, ast.While))), None)
+            early = []
+            if loop is not None:
+                seq = list(flat(loop.body))
+                if u in seq:
+                    early = [unparse(st) for st in seq[:seq.index(u)]]
             if ok and early:
                 ok = False
                 run.ob("C24.R3", "%s:entry-used-before-range-test:%d" % (f.fq, uses.index(u)), False, run.site(f, u),
